@@ -1280,3 +1280,95 @@ func Harness_C13_encrypt_fault() {
 		V.Assert(!anyErr, "an error was reported although the destination accepted everything")
 	}
 }
+
+// Harness_C01_scrypt_e2e: a passphrase file decrypts with the same passphrase
+// (any passphrase of 1..3 bytes, any work factor 1..3) to the exact plaintext.
+func Harness_C01_scrypt_e2e() {
+	V.InstallTape()
+	pw := string(V.Bytes("pw", V.Int("pwlen", 1, 3)))
+	r, err1 := NewScryptRecipient(pw)
+	id, err2 := NewScryptIdentity(pw)
+	V.Assert(err1 == nil && err2 == nil, "constructors failed")
+	if err1 != nil || err2 != nil {
+		return
+	}
+	r.SetWorkFactor(V.Int("logN", 1, 3))
+	P := V.Bytes("P", payloadLen())
+	var file bytes.Buffer
+	w, err := Encrypt(&file, r)
+	V.Assert(err == nil, "Encrypt refused a lone passphrase recipient")
+	if err != nil {
+		return
+	}
+	w.Write(P)
+	V.Assert(w.Close() == nil, "Close failed")
+	V.Reach("encrypted")
+	rd, derr := Decrypt(bytes.NewReader(file.Bytes()), id)
+	V.Assert(derr == nil, "the passphrase does not open its own file")
+	if derr != nil {
+		return
+	}
+	out, rerr := io.ReadAll(rd)
+	V.Assert(rerr == nil && bytes.Equal(out, P), "decrypted bytes differ from the plaintext")
+	V.Reach("decrypted")
+}
+
+// Harness_C13_decrypt_fault: the source of Decrypt fails with a non-EOF error
+// at an arbitrary offset of the file (header, nonce or payload), delivering
+// all at once or byte by byte: Decrypt or a later Read returns a non-EOF
+// error and the bytes released before it are a prefix of the plaintext.
+func Harness_C13_decrypt_fault() {
+	V.InstallTape()
+	idA := symIdentity("skA")
+	P := V.Bytes("P", payloadLen())
+	var buf bytes.Buffer
+	w, err := Encrypt(&buf, idA.Recipient())
+	V.Assert(err == nil, "Encrypt failed")
+	if err != nil {
+		return
+	}
+	w.Write(P)
+	w.Close()
+	file := buf.Bytes()
+	failAt := V.Int("failAt", 0, len(file))
+	src := &faultySrc{data: file, failAt: failAt}
+	if V.Bool("bytewise") {
+		src.piece = 1
+	}
+	r, derr := Decrypt(src, idA)
+	V.Reach("returned")
+	if derr != nil {
+		V.Assert(r == nil && derr != io.EOF, "Decrypt failed with a clean end of stream")
+		return
+	}
+	out, rerr := io.ReadAll(r)
+	V.Assert(rerr != nil, "a source failure ended in a clean end of stream")
+	V.Assert(len(out) <= len(P) && bytes.Equal(out, P[:len(out)]), "bytes released before the failure are not a prefix of the plaintext")
+	_, e2 := r.Read(make([]byte, 1))
+	V.Assert(e2 != nil && e2 != io.EOF, "a failed stream does not keep failing")
+}
+
+type faultySrc struct {
+	data   []byte
+	off    int
+	piece  int
+	failAt int
+}
+
+var errSrc = errors.New("injected read fault")
+
+func (s *faultySrc) Read(p []byte) (int, error) {
+	if s.off >= s.failAt {
+		return 0, errSrc
+	}
+	n := len(p)
+	if s.piece > 0 && n > s.piece {
+		n = s.piece
+	}
+	if n > s.failAt-s.off {
+		n = s.failAt - s.off
+	}
+	copy(p, s.data[s.off:s.off+n])
+	s.off += n
+	return n, nil
+}
